@@ -16,6 +16,19 @@ import copy
 PUSHES = ("std::string::String::push", "smartstring::SmartString::<Mode>::push", "std::vec::Vec::<T, A>::push", "std::vec::Vec::<T>::push")
 
 
+def _some_none(tt):
+    """{0: None target, 1: Some target} of a switch on an Option discriminant, whichever of the two is spelled `otherwise`
+    (`for` desugars to arms for both and an unreachable otherwise, `while let` to one arm and otherwise)"""
+    arms = dict((v, tg) for (v, tg) in tt["arms"])
+    if 0 in arms and 1 in arms:
+        return {0: arms[0], 1: arms[1]}
+    if 1 in arms and len(arms) == 1:
+        return {0: tt["otherwise"], 1: arms[1]}
+    if 0 in arms and len(arms) == 1:
+        return {0: arms[0], 1: tt["otherwise"]}
+    return None
+
+
 def _callee(t):
     ce = t.get("callee", {})
     r = ce.get("resolved")
@@ -58,8 +71,8 @@ def roll_push_loops(body):
         tt = blocks[test]["term"]
         if tt["t"] != "switch":
             continue
-        arms = dict((v, tg) for (v, tg) in tt["arms"])
-        if 0 not in arms or 1 not in arms or arms[0] in blk or arms[1] not in blk:
+        arms = _some_none(tt)
+        if arms is None or arms[0] in blk or arms[1] not in blk:
             continue
         exit_bb, bb = arms[0], arms[1]
         # walk the body: exactly one call (the push), then gotos back to the header
@@ -91,6 +104,8 @@ def roll_push_loops(body):
                         others += 1
                 elif rv["r"] == "ref" and rv["bk"] == "mut":
                     ref_stmt = st
+                elif rv["r"] == "discr" and rv["place"]["l"] == nloc:
+                    continue   # a dead re-read of the item's discriminant (drop elaboration)
                 else:
                     others += 1
             t = blocks[cur]["term"]
@@ -200,8 +215,8 @@ def roll_map_push_loops(body, key, root):
         tt = blocks[test]["term"]
         if tt["t"] != "switch":
             continue
-        arms = dict((v, tg) for (v, tg) in tt["arms"])
-        if 0 not in arms or 1 not in arms or arms[0] in blk or arms[1] not in blk:
+        arms = _some_none(tt)
+        if arms is None or arms[0] in blk or arms[1] not in blk:
             continue
         exit_bb, bb = arms[0], arms[1]
         # walk the body
@@ -362,6 +377,280 @@ def roll_map_push_loops(body, key, root):
             "file": blocks[h].get("file"),
         })
         for b2 in ({test} | seen):
+            blocks[b2]["stmts"] = []
+            blocks[b2]["term"] = {"t": "unreachable"}
+            blocks[b2]["dead"] = True
+        out.append((ckey, cj))
+        body._reset()
+    return out
+
+
+# ------------------------------------------------------------------------------------------------------------------
+def _loop_head(body, h, blk):
+    """the `x = it.next(); match x { None => exit, Some(..) => body }` head of a loop: (item option local, iterator local,
+    test block, exit target, first body block) or None"""
+    blocks = body.blocks
+    th = blocks[h]["term"]
+    if th["t"] != "call" or th["callee"].get("item") != "next" or len(th["args"]) != 1 or th["dest"]["proj"]:
+        return None
+    nloc = th["dest"]["l"]
+    if th.get("target") not in blk:
+        return None
+    a0 = th["args"][0]
+    if a0["o"] not in ("copy", "move") or a0["place"]["proj"]:
+        return None
+    refs = {}
+    for st in blocks[h]["stmts"]:
+        if st.get("s") == "assign" and not st["place"]["proj"] and st["rv"]["r"] == "ref" and st["rv"]["bk"] == "mut":
+            refs[st["place"]["l"]] = st["rv"]["place"]
+    cur_l = a0["place"]["l"]
+    iter_local = None
+    for _ in range(3):
+        pl = refs.get(cur_l)
+        if pl is None:
+            break
+        if not pl["proj"]:
+            iter_local = pl["l"]
+            break
+        if [p_.get("p") for p_ in pl["proj"]] == ["deref"]:
+            cur_l = pl["l"]
+        else:
+            break
+    if iter_local is None:
+        return None
+    test = th["target"]
+    tt = blocks[test]["term"]
+    if tt["t"] != "switch":
+        return None
+    arms = _some_none(tt)
+    if arms is None or arms[0] in blk or arms[1] not in blk:
+        return None
+    return nloc, iter_local, test, arms[0], arms[1]
+
+
+def _unit_only(body, bl):
+    for st in bl["stmts"]:
+        if st.get("s") == "other":
+            continue
+        if st.get("s") == "assign" and not st["place"]["proj"] and st["rv"]["r"] in ("use", "discr") and (body.locals[st["place"]["l"]]["ty"] == "()" or st["rv"]["r"] == "discr"):
+            continue
+        return False
+    return True
+
+
+def _skip_trivial(body, b, limit=4):
+    """follow gotos through blocks that only shuffle unit values"""
+    blocks = body.blocks
+    for _ in range(limit):
+        bl = blocks[b]
+        if bl["term"]["t"] == "goto" and _unit_only(body, bl):
+            b = bl["term"]["target"]
+        else:
+            break
+    return b
+
+
+def roll_flag_loops(body, key, root):
+    """`let mut found = false; for x in it { if p(x) { found = true; break; } }`   ==   `let found = it.any(|x| p(x));`
+    (and the mirror image with `true` / `false` swapped == `!it.any(..)`, i.e. `it.all(|x| !p(x))`), with or without the
+    `break`.  p is a straight chain of calls on the item; it becomes a synthetic closure body, so that the flag is what
+    the quantifier spelling computes.  Inlined view only.  Returns [(closure key, closure body json)]."""
+    blocks = body.blocks
+    out = []
+    for h, blk in sorted(body.loops().items()):
+        hd = _loop_head(body, h, blk)
+        if hd is None:
+            continue
+        nloc, iter_local, test, exit_bb, bb = hd
+        # walk the chain up to the deciding switch
+        seq = []
+        seen = set()
+        cur = bb
+        ok = True
+        sw = None
+        while True:
+            if cur in seen or cur not in blk:
+                ok = False
+                break
+            seen.add(cur)
+            for st in blocks[cur]["stmts"]:
+                if st.get("s") == "assign" and st["rv"]["r"] == "use" and not st["place"]["proj"] and body.locals[st["place"]["l"]]["ty"] == "()":
+                    continue
+                if st.get("s") == "assign":
+                    seq.append(("st", st))
+                elif st.get("s") != "other":
+                    ok = False
+            t = blocks[cur]["term"]
+            if t["t"] == "call":
+                if t.get("target") is None or t["dest"]["proj"] or "path" not in t["callee"]:
+                    ok = False
+                    break
+                seq.append(("call", t))
+                cur = t["target"]
+            elif t["t"] == "goto":
+                cur = t["target"]
+            elif t["t"] == "switch":
+                sw = cur
+                break
+            else:
+                ok = False
+                break
+        if not ok or sw is None:
+            continue
+        tsw = blocks[sw]["term"]
+        if tsw.get("discr_ty") != "bool" or tsw["discr"]["o"] not in ("copy", "move") or tsw["discr"]["place"]["proj"]:
+            continue
+        bl_ = tsw["discr"]["place"]["l"]
+        edges = [(0, tg) for (v, tg) in tsw["arms"] if v == 0] + [(1, tsw["otherwise"])]
+        if len(edges) != 2:
+            continue
+        # the two sides: one sets the flag (and may leave the loop), the other goes on with the next item
+        side = {}
+        for val, tg in edges:
+            side[val] = tg
+        flag = None
+        set_val = None
+        hit = None      # the value of the tested bool on which the flag is set
+        after_hit = None
+        plain = None
+        for val in (0, 1):
+            tg = side[val]
+            other = side[1 - val]
+            bset = blocks[tg]
+            assigns = [st for st in bset["stmts"] if st.get("s") == "assign" and not (st["rv"]["r"] == "use" and not st["place"]["proj"] and body.locals[st["place"]["l"]]["ty"] == "()")]
+            if len(assigns) == 1 and not assigns[0]["place"]["proj"] and assigns[0]["rv"]["r"] == "use" and assigns[0]["rv"]["op"]["o"] == "const" and isinstance(assigns[0]["rv"]["op"]["c"].get("v"), bool) and bset["term"]["t"] == "goto":
+                if _skip_trivial(body, other) == h or other == h:
+                    flag, set_val, hit, after_hit, plain = assigns[0]["place"]["l"], assigns[0]["rv"]["op"]["c"]["v"], val, bset["term"]["target"], other
+                    hit_block = tg
+                    break
+        if flag is None:
+            continue
+        # every block of the loop is accounted for
+        trivial_back = set()
+        x_ = plain
+        for _ in range(4):
+            if x_ == h:
+                break
+            trivial_back.add(x_)
+            x_ = blocks[x_]["term"].get("target") if blocks[x_]["term"]["t"] == "goto" else h
+        loop_blocks = {h, test} | seen | trivial_back | ({hit_block} if hit_block in blk else set())
+        if set(blk) - loop_blocks:
+            continue
+        # where does the hit side go: out of the loop (break) or on with the next item?
+        breaks = hit_block not in blk
+        if not breaks and _skip_trivial(body, after_hit) != h and after_hit != h:
+            continue
+        # the flag: one definition before the loop with the opposite constant, dominating the header; none elsewhere
+        fdefs = []
+        for b2, bl2 in enumerate(blocks):
+            if bl2["cleanup"]:
+                continue
+            for st in bl2["stmts"]:
+                if st.get("s") == "assign" and st["place"]["l"] == flag:
+                    fdefs.append((b2, st))
+            if bl2["term"]["t"] == "call" and bl2["term"]["dest"]["l"] == flag:
+                fdefs.append((b2, None))
+        inits = [(b2, st) for b2, st in fdefs if b2 != hit_block]
+        if len(fdefs) != 2 or len(inits) != 1 or inits[0][1] is None or inits[0][0] in blk or not body.dominates(inits[0][0], h):
+            continue
+        ist = inits[0][1]
+        if ist["place"]["proj"] or ist["rv"]["r"] != "use" or ist["rv"]["op"]["o"] != "const" or ist["rv"]["op"]["c"].get("v") is not (not set_val):
+            continue
+        # the flag is not read inside the loop
+        if any(pl["l"] == flag for b2 in loop_blocks for pl in _places([blocks[b2]["stmts"], blocks[b2]["term"]]) if not (b2 == hit_block)):
+            continue
+        # both ways out meet again
+        exit_join = _skip_trivial(body, exit_bb)
+        if breaks:
+            if _skip_trivial(body, after_hit) != exit_join:
+                continue
+        # the chain reads only the item and what it computes itself
+        defined = set()
+        for kind, x in seq:
+            pl = x["place"] if kind == "st" else x["dest"]
+            if pl["proj"]:
+                ok = False
+            defined.add(pl["l"])
+        if not ok or bl_ not in defined:
+            continue
+
+        def item_place(pl):
+            return pl["l"] == nloc and [p_.get("p") for p_ in pl["proj"][:2]] == ["downcast", "field"]
+        for kind, x in seq:
+            for pl in _places([x["rv"]] if kind == "st" else [x["args"]]):
+                if not (pl["l"] in defined or item_place(pl)):
+                    ok = False
+        for b2, bl2 in enumerate(blocks):
+            if b2 in loop_blocks or bl2["cleanup"]:
+                continue
+            for pl in _places([bl2["stmts"], bl2["term"]]):
+                if pl["l"] in defined:
+                    ok = False
+        if not ok:
+            continue
+        # ---- closure body: the chain, then return (tested bool == hit)
+        lmap = {}
+        clocals = [{"ty": "bool", "mut": True}, {"ty": "&mut {rolled loop test}", "mut": True}, None]
+        item_ty = [None]
+
+        def remap(frag):
+            frag = copy.deepcopy(frag)
+            for pl in _places(frag):
+                if item_place(pl):
+                    if item_ty[0] is None:
+                        item_ty[0] = pl["proj"][1].get("ty")
+                    pl["l"] = 2
+                    pl["proj"] = pl["proj"][2:]
+                elif pl["l"] in defined:
+                    if pl["l"] not in lmap:
+                        lmap[pl["l"]] = len(clocals)
+                        clocals.append(dict(body.locals[pl["l"]]))
+                    pl["l"] = lmap[pl["l"]]
+                pl["s"] = "_%d" % pl["l"]
+            return frag
+        sp, fl = blocks[bb].get("span"), blocks[bb].get("file")
+        cblocks = [{"cleanup": False, "stmts": [], "term": None, "span": sp, "file": fl}]
+        for kind, x in seq:
+            if kind == "st":
+                cblocks[-1]["stmts"].append(remap(x))
+            else:
+                t2 = remap(x)
+                t2["target"] = len(cblocks)
+                t2["unwind"] = "continue"
+                cblocks[-1]["term"] = t2
+                cblocks.append({"cleanup": False, "stmts": [], "term": None, "span": sp, "file": fl})
+        res = remap({"o": "copy", "place": {"l": bl_, "proj": [], "s": "_%d" % bl_}})
+        if hit == 1:
+            rv = {"r": "use", "op": res}
+        else:
+            rv = {"r": "unop", "uop": "Not", "a": res}
+        cblocks[-1]["stmts"].append({"s": "assign", "place": {"l": 0, "proj": [], "s": "_0"}, "rv": rv, "line": None})
+        cblocks[-1]["term"] = {"t": "return"}
+        clocals[2] = {"ty": item_ty[0] or "?", "mut": False}
+        ckey = "%s::{rolled-test#%d}" % (key, h)
+        cj = {"kind": "closure", "def_kind": "Closure", "arg_count": 2, "locals": clocals, "debug": [], "blocks": cblocks, "span": sp, "parent": key, "parent_kind": "Fn", "root": root, "synthetic": True}
+        # ---- the caller:  c = closure; r = Iterator::any(move it, move c); flag = r | !r; goto join
+        nl = len(body.locals)
+        body.locals.append({"ty": "{rolled loop test}", "mut": False})
+        body.locals.append({"ty": "bool", "mut": False})
+        line = ist.get("line")
+        setb = len(blocks)
+        newh = blocks[h]
+        newh["stmts"] = [{"s": "assign", "place": {"l": nl, "proj": [], "s": "_%d" % nl}, "rv": {"r": "aggregate", "ak": "closure", "path": ckey, "ops": []}, "line": line}]
+        newh["term"] = {
+            "t": "call",
+            "callee": {"path": "std::iter::Iterator::any", "full": "std::iter::Iterator::any", "args": [], "local": False, "resolved": None, "trait": "std::iter::Iterator", "item": "any", "rolled": True},
+            "args": [{"o": "move", "place": {"l": iter_local, "proj": [], "s": "_%d" % iter_local}}, {"o": "move", "place": {"l": nl, "proj": [], "s": "_%d" % nl}}],
+            "dest": {"l": nl + 1, "proj": [], "s": "_%d" % (nl + 1)},
+            "target": setb,
+            "unwind": "continue",
+        }
+        r_op = {"o": "move", "place": {"l": nl + 1, "proj": [], "s": "_%d" % (nl + 1)}}
+        frv = {"r": "use", "op": r_op} if set_val else {"r": "unop", "uop": "Not", "a": r_op}
+        blocks.append({"cleanup": False, "stmts": [{"s": "assign", "place": {"l": flag, "proj": [], "s": "_%d" % flag}, "rv": frv, "line": line}], "term": {"t": "goto", "target": exit_join}, "span": blocks[h].get("span"), "file": blocks[h].get("file"), "model": True})
+        # the old initialisation of the flag is dead now; the loop body and the break block go
+        blocks[inits[0][0]]["stmts"] = [st for st in blocks[inits[0][0]]["stmts"] if st is not ist]
+        for b2 in (loop_blocks | {hit_block}) - {h}:
             blocks[b2]["stmts"] = []
             blocks[b2]["term"] = {"t": "unreachable"}
             blocks[b2]["dead"] = True
